@@ -468,6 +468,46 @@ pub fn run(tier: Tier, replay: Option<String>) -> i32 {
         ]
     };
     for (ei, (ename, geo, verify)) in tables.iter().enumerate() {
+        // the published table (data file of the crate) against what the lookup resolves: every listed id must be found
+        let src = vcommon::repo_root().join(format!("wow_world_base/src/extended/{}/trigger/triggers.rs", ename));
+        match std::fs::read_to_string(&src) {
+            Err(e) => c.inconclusive(&format!("{}: {}", src.display(), e)),
+            Ok(text) => {
+                let lines: Vec<&str> = text.lines().collect();
+                let mut listed: Vec<(u32, bool)> = Vec::new();
+                for (i, l) in lines.iter().enumerate() {
+                    if let Some(rest) = l.strip_prefix('(') {
+                        if let Some(id) = rest.strip_suffix(", (").and_then(|x| x.parse::<u32>().ok()) {
+                            let next = lines.get(i + 1).map(|s| s.trim_start()).unwrap_or("");
+                            if next.starts_with("AreaTrigger::") {
+                                listed.push((id, next.starts_with("AreaTrigger::Square")));
+                            }
+                        }
+                    }
+                }
+                c.extra.insert(format!("table_rows_in_source_{}", ename), json!(listed.len()));
+                if listed.is_empty() {
+                    c.inconclusive(&format!("no rows recognised in {}", src.display()));
+                }
+                for (id, square) in &listed {
+                    c.eval();
+                    match geo.iter().find(|g| g.0 == *id) {
+                        None => {
+                            c.fail(&format!("geometry:verify_trigger:{}:listed-id-not-found", ename), &format!("trigger {} is listed in the {} table but verify_trigger reports NotFound for it", id, ename), json!({"kind": "table-id", "expansion": ename, "trigger": id}));
+                        }
+                        Some(g) if g.4 != *square => {
+                            c.fail(&format!("geometry:verify_trigger:{}:listed-shape-differs", ename), &format!("trigger {} is a {} in the table but the lookup returns the other shape", id, if *square { "box" } else { "circle" }), json!({"kind": "table-id", "expansion": ename, "trigger": id}));
+                        }
+                        _ => {}
+                    }
+                }
+                for g in geo.iter() {
+                    if !listed.iter().any(|(id, _)| *id == g.0) {
+                        c.fail(&format!("geometry:verify_trigger:{}:unlisted-id-found", ename), &format!("verify_trigger resolves id {} which the {} table does not list", g.0, ename), json!({"kind": "table-id", "expansion": ename, "trigger": g.0}));
+                    }
+                }
+            }
+        }
         c.extra.insert(format!("table_triggers_{}", ename), json!(geo.len()));
         c.extra.insert(format!("table_squares_{}", ename), json!(geo.iter().filter(|g| g.4).count()));
         // ids absent from the table must be NotFound: covered by table() itself (ids 0..20000 enumerated);
